@@ -154,11 +154,11 @@ def _gene_parts(ctx: Context, index: int) -> list:
 def _lookup_as_coded(ctx: Context, window: Tuple[int, int, int]) -> set:
     """ MODEL OF THE DEFECT (used for classification only, never by the oracle): the genes that
         Record.get_cds_features_within_location(window, with_overlapping=True) yields as the code base
-        implements it - a sorted list in which an origin-spanning gene sorts first (negative key) and has
+        implements it (after the C03-F4 repair) - a sorted list in which an origin-spanning gene sorts first (negative key) and has
         location.start 0, a bisect to the first gene not before the window, stepping back only over
         directly preceding genes that overlap the window, a forward scan that stops at the first gene that
-        neither lies in / overlaps the window nor contains its successor, and for a two-part window only
-        the genes each of whose parts lies inside one part of the window """
+        neither lies in / overlaps the window nor contains its successor; a two-part window is looked up
+        part by part """
     length = ctx.length
     count = len(ctx.case["genes"])
     parts = {i: _gene_parts(ctx, i) for i in range(count)}
@@ -198,8 +198,8 @@ def _lookup_as_coded(ctx: Context, window: Tuple[int, int, int]) -> set:
     if pieces == 1:
         return set(one_part(start, start + size))
     upper, lower = (start, length), (0, start + size - length)
-    found = one_part(*upper) + one_part(*lower)
-    return {i for i in found if all(any(low <= s and e <= high for low, high in (upper, lower)) for s, e in parts[i])}
+    # every gene found for one of the two parts counts (with_overlapping is honoured since the C03-F4 repair)
+    return set(one_part(*upper) + one_part(*lower))
 
 
 def _reported_under(ctx: Context, rule: Dict[str, Any], scan_defect: bool) -> set:
@@ -508,6 +508,7 @@ SUP_LATE: Mechanism = ("superior-chain-over-origin", "C03-F10", superior_chain_o
 
 MECHANISMS: Dict[str, List[Mechanism]] = {
     "anchoring-genes": [
+        ("lookup-scan-loses-neighbour", "C03-F12", lookup_scan_loses_neighbour),
     ],
     "neighbourhood": [("ring-closes", "C03-F5", ring_closes)],
     "no-unexpected-exception": [
@@ -561,6 +562,7 @@ FINDING_IDS = sorted({owner for entries in MECHANISMS.values() for _, owner, _ i
 
 CASE_PRIORITY = (
     "gene-at-0-with-origin-spanning-gene",
+    "lookup-scan-loses-neighbour",
     "wrap-prone",
     "ring-closes",
     "superior-overlaps-over-origin",
@@ -580,9 +582,7 @@ def case_mechanisms(case: Dict[str, Any]) -> List[str]:
     chains_of: Dict[str, List[List[int]]] = {}
     for rule in case["rules"]:
         where = {"rule": rule["n"]}
-        if window_edge(ctx, where):
-            found.add("window-edge-over-origin")
-        elif lookup_scan_loses_neighbour(ctx, where):
+        if lookup_scan_loses_neighbour(ctx, where):
             found.add("lookup-scan-loses-neighbour")
         anchors = chk.expected_anchors(case, rule, ctx.geo)
         chains_of[rule["n"]] = chk.chains(anchors, rule["cut"], ctx.geo)
